@@ -1,6 +1,9 @@
 use bpverif::props::common::{Opts, Tier};
 use std::time::Duration;
 
+#[global_allocator]
+static ALLOC: bpverif::alloc_count::Counting = bpverif::alloc_count::Counting;
+
 fn main() {
     bpverif::evidence::install_quiet_panic_hook();
     let args: Vec<String> = std::env::args().collect();
@@ -15,6 +18,7 @@ fn main() {
     };
     let mut replay = None;
     let mut budget = None;
+    let mut extra: Vec<String> = vec![];
     let mut i = 2;
     while i < args.len() {
         match args[i].as_str() {
@@ -30,7 +34,7 @@ fn main() {
                 i += 1;
                 budget = Some(args[i].parse::<u64>().expect("budget seconds"));
             }
-            _ => {}
+            other => extra.push(other.to_string()),
         }
         i += 1;
     }
@@ -39,7 +43,7 @@ fn main() {
         Tier::Quick => 150,
         Tier::Thorough => 3000,
     }));
-    let o = Opts { tier, seed, replay, budget };
+    let o = Opts { tier, seed, replay, budget, extra };
     let code = bpverif::props::dispatch(&id, &o);
     std::process::exit(code);
 }
